@@ -67,6 +67,7 @@ type MVal struct {
 }
 
 func (e MVal) Error() string { return fmt.Sprintf("mval:%d:%s", e.A, e.B) }
+
 // zero fields are omitted on the wire and only the fields present are assigned when decoding (what plain
 // struct decoding with omitempty does): a decode target that is not fresh keeps stale fields
 func (e MVal) MarshalJSON() ([]byte, error) {
